@@ -20,7 +20,14 @@ INVALID_UTF8 = [b"\xff", b"\x80", b"\xc3", b"\xe2\x82", b"\xf0\x9f", b"\xc0\xaf"
 
 
 def hostile_ctrl(rng):
-    k = rng.below(8)
+    k = rng.below(10)
+    if k == 8:
+        # every truncation of a valid command, in particular the signature alone and the signature followed by blanks / NULs
+        d = W.rand_cmd(rng, True)
+        return d[:rng.choice([0, 1, 2, 3, 4, 5, rng.below(len(d) + 1)])]
+    if k == 9:
+        return list(rng.choice([b"CMD", b"CMD ", b"CMD\0", b"CMD \0", b"CMD \0\0", b"CMD  ", b"CMD   \0", b"CMDX", b"CMD\0\0\0\0", b"CMD \t\0", b"CMD \n",
+                                b"CMD  POWERON\0", b"CMD POWERON \0", b"CMD RXTUNE  935000\0", b"CMD\tPOWERON\0", b" CMD POWERON\0", b"RSP POWERON 0\0", b""]))
     if k == 0:
         return list(rng.bytes(rng.below(40)))                          # random octets (mostly invalid UTF-8 -> filtered below)
     if k == 1:
